@@ -80,7 +80,7 @@ class SdcLocation:
         slash = quote('/', safe='')
         loc = slash.join(identifiers)  # this is a bit ugly, but urllib.quote does not touch slashes;
         query = urlencode(query_dict)
-        path = f'/{quote(self.root)}/{loc}'
+        path = f"/{quote(self.root, safe='')}/{loc}"  # a '/' inside the root must not become a path separator
         return urlunparse(
             ParseResult(scheme=self.scheme, netloc=None, path=path, params=None, query=query, fragment=None),
         )
